@@ -906,4 +906,40 @@ def maximal_programs():
     L.append(Line(["char\t*", longname, "(void);"], "proto"))
     L += [Line([""], "blank"), Line(["#endif"], "guard_endif")]
     out.append(Prog(name, L, dict(maximal="4-param prototypes, 80-column prototype")))
+    # 4. control-flow corner shapes: empty loop body on its own line, brace-less else, braced loop inside a
+    #    brace-less if, a void function whose last statement is a control statement
+    name = "mx4.c"
+    s1, i1, n1 = Slot("id", "str"), Slot("id", "idx"), Slot("id", "num")
+    L = header_lines(name) + [Line([""], "blank")]
+    L.append(Line(["void\t", Slot("fname", "corner"), "(char *", s1, ", int ", n1, ")"], "func_sig", 0, 0))
+    L.append(Line(["{"], "func_open", 0, 0))
+    L.append(Line(["\tint\t", i1, ";"], "decl", 1, 0, var=i1))
+    L.append(Line([""], "blank_decl", 0, 0))
+    L.append(Line(["\t", i1, " = 0;"], "stmt", 1, 0, stmt="assign"))
+    L.append(Line(["\twhile (", s1, "[", i1, "++])"], "ctrl", 1, 0, kw="while"))
+    L.append(Line(["\t\t;"], "cont", 2, 0))
+    L.append(Line(["\tif (", n1, " > 0)"], "ctrl", 1, 0, kw="if"))
+    L.append(Line(["\t\t", n1, "--;"], "stmt", 2, 0, stmt="incdec"))
+    L.append(Line(["\telse if (", n1, " < 0)"], "ctrl", 1, 0, kw="else if"))
+    L.append(Line(["\t\t", n1, "++;"], "stmt", 2, 0, stmt="incdec"))
+    L.append(Line(["\telse"], "ctrl", 1, 0, kw="else"))
+    L.append(Line(["\t\t", i1, " = 1;"], "stmt", 2, 0, stmt="assign"))
+    L.append(Line(["\tif (", i1, ")"], "ctrl", 1, 0, kw="if"))
+    L.append(Line(["\t{"], "lbrace", 1, 0))
+    L.append(Line(["\t\twhile (", n1, " < 9)"], "ctrl", 2, 0, kw="while"))
+    L.append(Line(["\t\t{"], "lbrace", 2, 0))
+    L.append(Line(["\t\t\t", n1, "++;"], "stmt", 3, 0, stmt="incdec"))
+    L.append(Line(["\t\t\tif (", n1, " == 5)"], "ctrl", 3, 0, kw="if"))
+    L.append(Line(["\t\t\t\tcontinue ;"], "stmt", 4, 0, stmt="continue"))
+    L.append(Line(["\t\t}"], "rbrace", 2, 0))
+    L.append(Line(["\t}"], "rbrace", 1, 0))
+    L.append(Line(["\twhile (", i1, " < ", n1, ")"], "ctrl", 1, 0, kw="while"))
+    L.append(Line(["\t\t", i1, "++;"], "stmt", 2, 0, stmt="incdec"))
+    L.append(Line(["}"], "func_close", 0, 0))
+    L.append(Line([""], "blank"))
+    L.append(Line(["int\t", Slot("fname", "after"), "(void)"], "func_sig", 0, 1))
+    L.append(Line(["{"], "func_open", 0, 1))
+    L.append(Line(["\treturn (0);"], "stmt", 1, 1, stmt="return"))
+    L.append(Line(["}"], "func_close", 0, 1))
+    out.append(Prog(name, L, dict(nfuncs=2, maximal="control-flow corner shapes")))
     return out
